@@ -432,7 +432,7 @@ resize_rows(2, 2, 3, 1, {"C16": Q, "C02": T}, sb=0, alt=1, parked=(2, 1), suffix
 def resize_glue(cols, rows, new_cols, new_rows, props, tabs_k="SYM", mem=6):
     kw = dict(sb=0, alt=2, limit="Some(1)", tabs_k=tabs_k, fill="Fill::Blank")
     inst("rg__%dx%d_to_%dx%d%s" % (cols, rows, new_cols, new_rows, "" if tabs_k == "SYM" else "_k%s" % tabs_k), "terminal",
-         "t_resize_glue(%s, %d, %d)" % (tcfg(cols, rows, **kw), new_cols, new_rows), max(cols, new_cols) // 8 + max(rows, new_rows) + 12, props, mem=mem,
+         "t_resize_glue(%s, %d, %d)" % (tcfg(cols, rows, **kw), new_cols, new_rows), max(cols, new_cols, 13) + 4, props, mem=mem,
          stubs=[("crate::buffer::Buffer::resize", "crate::buffer::Buffer::kv_resize_contract")],
          desc="Terminal::resize %dx%d -> %dx%d with Buffer::resize replaced by its contract: tab stops contracted / expanded with the right arguments, wrap-pending dropped, "
               "region kept on a width-only change, saved position clamped, changed rows" % (cols, rows, new_cols, new_rows),
